@@ -239,6 +239,8 @@ struct Broker {
     srv_alias_bound: Vec<u16>,
     tam_in: i64,
     all_legal: bool,
+    /// undecodable bytes were accepted (buffered) by the engine on this connection: the stream is no longer aligned with packets
+    misaligned: bool,
     connect_flushed: bool,
 }
 
@@ -640,6 +642,9 @@ impl<'a> Sim<'a> {
 
     fn feed(&mut self, p: Option<&Packet>, bytes: &[u8], legal: bool, type_name: &str) -> bool {
         if !legal { self.b.all_legal = false; }
+        // bytes that were not a packet and were not refused sit in the engine's decoder as the beginning of a frame: whatever the
+        // broker sends next on this connection is no longer seen by the engine as the packet it is
+        let (p, legal, type_name) = if self.b.misaligned { (None, false, "MISALIGNED") } else { (p, legal, type_name) };
         if std::env::var("VERIF_DEBUG_SNAP").is_ok() { eprintln!("t={} before {}: {:?}", self.t, type_name, self.engine.snapshot()); }
         let t = self.t;
         // deliver in 1..3 chunks so that framing across reads is exercised in every run
@@ -672,6 +677,7 @@ impl<'a> Sim<'a> {
             ("hash", json!(p.map(|p| rc::hash31(&[p.bytes("payload").unwrap_or(&[])])).unwrap_or(0))),
             ("result", json!(res_str(&result))), ("state", json!(state)), ("legal", json!(legal as u8)), ("alllegal", json!(self.b.all_legal as u8)), ("chunks", json!(cuts.len())),
         ]);
+        if p.is_none() && result.is_ok() { self.b.misaligned = true; self.b.all_legal = false; }
         self.completions("rx");
         self.emit_surfaced(all_surfaced);
         self.emit_state();
@@ -695,12 +701,12 @@ impl<'a> Sim<'a> {
         // deviations only make sense for some kinds; anything else is an ordinary operation
         let variant = match (kind, variant) {
             ("pub", "props" | "bigprop" | "emptytopic" | "wildtopic") => variant,
-            ("sub", "wild" | "shared" | "subid" | "badfilter" | "nolocalshared") => variant,
-            ("unsub", "wild" | "badfilter") => variant,
+            ("sub", "wild" | "shared" | "sharedwild" | "subid" | "badfilter" | "nolocalshared") => variant,
+            ("unsub", "wild" | "sharedwild" | "badfilter") => variant,
             _ => "",
         };
         // these deviations live in the second and later entries
-        let entries = if matches!(variant, "wild" | "shared" | "badfilter" | "nolocalshared") { entries.max(2) } else { entries };
+        let entries = if matches!(variant, "wild" | "shared" | "sharedwild" | "badfilter" | "nolocalshared") { entries.max(2) } else { entries };
         let (hash, len);
         use gneiss_mqtt::verif::validate::{outbound, UserPacket};
         let verdict;
@@ -732,6 +738,7 @@ impl<'a> Sim<'a> {
                         (0, _) => format!("s/{}/a", key),
                         (_, "wild") => format!("w/{}/+/#", i),
                         (_, "shared") => format!("$share/g/{}", i),
+                        (_, "sharedwild") => format!("$share/g/{}/+/x", i),
                         (_, "badfilter") => "a/#/b".to_string(),
                         (_, "nolocalshared") => format!("$share/g/{}", i),
                         _ => format!("f/{}/{}", key, i),
@@ -753,7 +760,7 @@ impl<'a> Sim<'a> {
             _ => {
                 let mut b = UnsubscribePacket::builder();
                 for i in 0..entries {
-                    let filter = match (i, variant) { (0, _) => format!("u/{}/a", key), (_, "wild") => format!("w/{}/+", i), (_, "badfilter") => "a/#/b".to_string(), _ => format!("f/{}/{}", key, i) };
+                    let filter = match (i, variant) { (0, _) => format!("u/{}/a", key), (_, "wild") => format!("w/{}/+", i), (_, "sharedwild") => format!("$share/g/{}/#", i), (_, "badfilter") => "a/#/b".to_string(), _ => format!("f/{}/{}", key, i) };
                     b = b.with_topic_filter(filter);
                 }
                 let packet = b.build();
@@ -791,7 +798,7 @@ impl<'a> Sim<'a> {
         let Some(r) = self.guarded("connection_opened", |e| e.connection_opened(t, t + deadline)) else { return; };
         if r.is_ok() {
             self.b.conn += 1; self.b.open = true; self.b.connect_seen = false; self.b.connect_flushed = false; self.b.connack_sent = false; self.b.owed.clear(); self.sock_upto = 0; self.tx_end = 0;
-            self.b.srv_alias_bound.clear(); self.buf.clear(); self.wire.clear(); self.wire_parsed = 0; self.call_marks.clear();
+            self.b.srv_alias_bound.clear(); self.b.misaligned = false; self.buf.clear(); self.wire.clear(); self.wire_parsed = 0; self.call_marks.clear();
         }
         let (conn, state) = (self.b.conn, self.state());
         self.emit("Open", vec![("conn", json!(conn)), ("deadline", json!(clamp31(t + deadline))), ("result", json!(res_str(&r))), ("state", json!(state))]);
@@ -844,7 +851,8 @@ impl<'a> Sim<'a> {
     fn next_svc(&mut self) -> Option<u64> {
         let t = self.t;
         let r = self.guarded("next_service", |e| e.next_service_ms(t))?;
-        self.emit("NextSvc", vec![("at", json!(r.map(|x| clamp31(x)).unwrap_or(-1)))]);
+        let state = self.state();
+        self.emit("NextSvc", vec![("at", json!(r.map(|x| clamp31(x)).unwrap_or(-1))), ("state", json!(state))]);
         r
     }
 
